@@ -77,9 +77,10 @@ func main() {
 			}
 			m.run("plan:"+filepath.Base(f), p[0].NH, p[1:])
 		}
+		m.run("matrix", 3, matrixHistory(rng))
 		for i := 0; i < *nmap; i++ {
 			nh := rng.Intn(3) + 2
-			m.run("rand", nh, genMapHistory(rng, nh, rng.Intn(6)+2, rng.Intn(*maxops)+6))
+			m.run("rand", nh, genMapHistory(rng, nh, rng.Intn(7)+2, rng.Intn(*maxops)+6))
 		}
 		w.Close()
 		summary += fmt.Sprintf("map_events=%d ", w.N())
